@@ -311,6 +311,8 @@ func parseOp(op string) (p parsed, err error) {
 		return parsed{`. as [$b,$t] | ` + decExpr("$t | from_radix($b)"), []any{b, string(hlib.UnHex(ws[3]))}, decObs}, nil
 	case name == "json" && dir == "rt" && len(ws) == 3:
 		return parsed{rtExpr("tojson", "fromjson | tovalue"), parseWire(ws[2]), jsonRtObs}, nil
+	case name == "jqlit" && dir == "rt" && len(ws) == 3:
+		return parsed{rtExpr("to_jq", "from_jq"), parseWire(ws[2]), jsonRtObs}, nil
 	case name == "json" && dir == "dec" && len(ws) == 3:
 		return parsed{decExpr("fromjson | tovalue"), string(hlib.UnHex(ws[2])), jsonDecObs}, nil
 	case dir == "hash" && len(ws) == 3:
